@@ -504,17 +504,50 @@ Fixpoint insert_sorted (kv : bytes * value) (l : amap) : amap :=
   end.
 Definition sort_map (m : amap) : amap := fold_right insert_sorted [] m.
 
-(* ---- providers: provider [i] is constructed with resource [nth i rs]; every emitted item (span, log
-   record, metric batch) is observed at the exporter as (index of the provider whose GetResource() object
-   it references, that resource).  The providers copy the resource they are given. *)
+(* ---- providers: provider [i] is constructed with resource [nth i rs] (the providers copy it) and, for
+   metrics, two readers (cumulative and delta).  A script drives them; every item an exporter / reader
+   callback receives - a span, a log record, a metric batch, INCLUDING batches without any data - is
+   observed as (index of the provider whose GetResource() object it references, that resource, has data?). *)
 Inductive signal := SigSpan | SigLog | SigMetric.
 Record pitem := mk_item_obs { p_ref : option nat; p_res : resource }.
-Definition emit (rs : list resource) (op : signal * nat) : option pitem :=
-  match nth_error rs (snd op) with
-  | Some r => Some (mk_item_obs (Some (snd op)) r)
+Inductive pop :=
+| PE (sg : signal) (i : nat)       (* span / log record through provider i (sg = SigSpan | SigLog) *)
+| PG (i : nat)                     (* GetMeter only *)
+| PI (i : nat)                     (* GetMeter + create the counter, no measurement *)
+| PA (i : nat)                     (* counter.Add(1) (creating meter and counter when needed) *)
+| PK (delta : bool) (i : nat).     (* reader.Collect on the cumulative / delta reader *)
+
+(* per provider: number of measurements so far.  A collection has data iff the provider's counter has ever
+   been incremented - for the delta reader too (it reports a point for a known series in every cycle). *)
+Definition pstate := list nat.
+Fixpoint upd_nth {A} (n : nat) (f : A -> A) (l : list A) : list A :=
+  match l, n with
+  | [], _ => []
+  | x :: l', O => f x :: l'
+  | x :: l', S n' => x :: upd_nth n' f l'
+  end.
+
+Definition item_of (rs : list resource) (i : nat) (has_data : bool) : option (pitem * bool) :=
+  match nth_error rs i with
+  | Some r => Some (mk_item_obs (Some i) r, has_data)
   | None => None
   end.
-Definition run_emits (rs : list resource) (ops : list (signal * nat)) : list (option pitem) := map (emit rs) ops.
+
+(* new state, observations made by this operation (none or one) *)
+Definition pstep (rs : list resource) (st : pstate) (op : pop) : pstate * list (option (pitem * bool)) :=
+  match op with
+  | PE _ i => (st, [item_of rs i true])
+  | PG _ | PI _ => (st, [])
+  | PA i => (upd_nth i S st, [])
+  | PK _ i => (st, [item_of rs i (negb (Nat.eqb (nth i st O) O))])
+  end.
+Fixpoint run_pops (rs : list resource) (st : pstate) (ops : list pop) : list (option (pitem * bool)) :=
+  match ops with
+  | [] => []
+  | op :: ops' => let '(st', o) := pstep rs st op in o ++ run_pops rs st' ops'
+  end.
+Definition run_emits (rs : list resource) (ops : list pop) : list (option (pitem * bool)) :=
+  run_pops rs (map (fun _ => O) rs) ops.
 
 (* sdk::{trace,metrics,logs}::Provider::Set*Provider(p): is p installed as the global provider? *)
 Definition provider_installed (disabled_var : envv) : bool := negb (sdk_disabled disabled_var).
